@@ -22,6 +22,7 @@ LENF = ("rules.shared_lenfield", "lenfield_rules", "ctx")
 
 FOREIGN = {
     "C01": [  # write -> read round trip
+        (("rules.C13", "raw_rules", "facts"), "the archive comment (and the entry list) survive: a writer opened on an existing archive carries them over unless replaced"),
         (("rules.C02", "sib_rules", "ctx"), "a large_file entry started through the extra-data API reads back: the re-patched local extra length counts the ZIP64 placeholder"),
         (LENF, "entries behind a ZIP64-sized one are read back: the central header announces exactly the extra bytes it emits"),
         (("rules.C12", "misuse_rules", "facts"), "every opener accepts every documented option combination: levels are validated in one place, for the method actually used"),
